@@ -113,11 +113,45 @@ def colStarts : Nat → List Nat → List Nat
   | _, [] => []
   | col, s :: ss => col :: colStarts (col + s) ss
 
+/-- where a spanning cell starts and ends among the declared columns: a cell that starts at column
+    `s` (0-based, the spans of the cells before it added up) and spans `n > 1` columns covers the
+    declared columns `s .. s+n-1`, provided they exist -/
+def linkSpec (ncols : Nat) (col : Nat) (cells : List CellR) : List (Option (Nat × Nat)) :=
+  List.zipWith (fun (c : CellR) s =>
+      if c.colspan.getD 0 > 1 ∧ s + c.colspan.getD 0 - 1 < ncols then some (s, s + c.colspan.getD 0 - 1) else none)
+    cells (colStarts col (cells.map CellR.span))
+
 /-- what a rule command means for a row: the cells whose first column lies in the span get the mark -/
 def markRow (span : Option (Nat × Nat)) (loc : Loc) (col : Nat) (cells : List CellR) : List CellR :=
   List.zipWith (fun (c : CellR) s => if inSpan span s then c.mark loc else c) cells (colStarts col (cells.map CellR.span))
 
 
+
+/-! ## which rows the rule commands of a table mark (on finished rows, any placement of rules) -/
+
+/-- a content row: the rules written in it applied to itself (top for leading, bottom for
+    trailing ones), then the styles of the declared columns -/
+def ownRow (spec : List ColStyle) (r : RowR) : RowR := styleRow spec (applyRow walk r none r)
+
+/-- rows in order, `cur` = the last content row seen (still collecting the rule-only rows that
+    follow it): a rule-only row marks the BOTTOM of the nearest content row above it and
+    disappears; without a content row above it just disappears; content rows keep their order -/
+def specRows (spec : List ColStyle) : Option RowR → List RowR → List RowR
+  | none, [] => []
+  | some r, [] => [r]
+  | cur, x :: rest =>
+    if rowBorderOnly x then
+      match cur with
+      | none => specRows spec none rest
+      | some r => specRows spec (some (applyRow walk x (some .bottom) r)) rest
+    else cur.toList ++ specRows spec (some (ownRow spec x)) rest
+
+/-- the whole table: a rule-only FIRST row (when more rows follow) marks the TOP of the second row -/
+def specTable (spec : List ColStyle) : List RowR → List RowR
+  | r0 :: r1 :: rest =>
+    if rowBorderOnly r0 then specRows spec none (applyRow walk r0 (some .top) r1 :: rest)
+    else specRows spec none (r0 :: r1 :: rest)
+  | rows => specRows spec none rows
 
 /-! ## what a written table means (rule normal form: `\hline`/`\cline` stand at the start of a
 row, before its first cell's content, or alone in a row of their own) -/
@@ -150,6 +184,7 @@ structure CellObs where
   marks : Marks
   style : ColStyle
   body : Blocks
+  link : Option (Nat × Nat) := none   -- a spanning cell: first and last declared column it covers (0-based)
 
 def lastMcol : List Block → Option (Nat × ColStyle)
   | [] => none
@@ -181,7 +216,8 @@ def cellsObs (cols : List ColStyle) (top bottom : List Block) : Nat → List Blo
     let slice := (cols.drop (start - 1)).take span
     let style := slice.foldl (fun st s => styleUpdate st ((m.map (·.2)).getD s)) ⟨0, false, false⟩
     { span := span, marks := { top := top.any (ruleCovers start), bottom := bottom.any (ruleCovers start) },
-      style := style, body := c } :: cellsObs cols top bottom (start + span) cs
+      style := style, body := c,
+      link := if span > 1 ∧ start - 1 + span - 1 < cols.length then some (start - 1, start - 1 + span - 1) else none } :: cellsObs cols top bottom (start + span) cs
 
 /-- rules of the rule-only rows that directly follow -/
 def followingRules : List (List Block × Bool × List Blocks) → List Block
